@@ -1175,18 +1175,13 @@ def check_tree_standalone(tree: Tree, res: Result, due_to_text: typing.Optional[
                     continue
                 res.count("links_checked")
                 res.count("links_checked_" + href_form(href))
-                target, frag = resolve(rel, href, tree.dirs.get(key, set()), tree.index)
+                # a reference that names a directory means that directory's index.html and nothing else: "a page the
+                # generator actually produces" is a file of the output tree (with another namespace file stem / extension
+                # there is no index.html, so a directory reference is a dangling link)
+                target, frag = resolve(rel, href, tree.dirs.get(key, set()), None)
                 if tree.index is not None and target is not None and "#" in href and href_form(href) != "fragment_only":
                     if not href.partition("#")[0].endswith("/"):
                         res.count("links_naming_a_page_file")
-                    elif not target.endswith("/index.html"):
-                        # the statement asks for "a page the generator produces": a directory reference is followed to the
-                        # namespace page the run produced in that directory, whatever it is called (counted, with example)
-                        res.count("directory_links_followed_to_a_namespace_page_not_named_index_html")
-                        res.notes.setdefault(
-                            "directory_link_to_non_index_namespace_page",
-                            f"{rel}: href {href!r} names a directory whose namespace page is {target!r}",
-                        )
                 root_of_page = rel.split("/", 1)[0]
                 where = "nested_namespace_page" if depth > 1 else "root_namespace_page"
                 base_sig = {"kind": "broken_link", "form": href_form(href), "from": where}
@@ -1713,9 +1708,9 @@ def run(ctx: Ctx) -> int:
             "a URL that names a directory means that directory's index.html; with separate output directories a "
             "cross-root link is judged against the union of the output roots",
             "server-absolute hrefs (/reg/Namespace.html on type pages) and external URLs are counted, not judged",
-            "runs with a namespace file stem / extension option: a directory URL is followed to the single generated "
-            "file of that directory that is not a type page (<name>_<major>_<minor><ext>), whatever its name "
-            "(stat directory_links_followed_to_a_namespace_page_not_named_index_html); without options it means index.html",
+            "also in runs with a namespace file stem / extension option a directory URL means index.html (which such a run "
+            "does not produce: the link must name the page file); the namespace page of a directory is recognised as the "
+            "single generated file there that is not a type page (<name>_<major>_<minor><ext>)",
             "ids are judged only as link targets (existence); a linked id that occurs twice in its page is counted in "
             "stats (links_to_an_id_that_occurs_more_than_once, not_demanded_observations), not reported: the statement "
             "does not demand unique ids",
